@@ -1,9 +1,18 @@
 //! rfverif: correspondence (real rustfmt code vs the Lean model) and failing-input search.
 //! usage: rfverif <property> --tier quick|thorough --seed N --out DIR
 #![feature(rustc_private)]
+extern crate rustc_ast_pretty;
+extern crate rustc_data_structures;
+extern crate rustc_driver;
+extern crate rustc_errors;
 extern crate rustc_lexer;
 mod boundary;
+extern crate rustc_parse;
+extern crate rustc_session;
+extern crate rustc_span;
+mod astpp;
 mod c01;
+mod c01gen;
 mod c01lit;
 mod c02;
 mod c07;
@@ -93,6 +102,8 @@ fn main() {
         "lists" => lists_corr::run(&tier, seed, &out),
         "probe" => probe(&out),
         // rfverif tokens <file> [keep]  : the encoded token list of a file (for the C01/C03 validators)
+        // rfverif astpp <file> [edition] : the second oracle's printed AST
+        "astpp" => { let src = std::fs::read_to_string(&args[2]).unwrap_or_default(); match astpp::pretty(&src, args.get(3).map(|s| s.as_str()).unwrap_or("2024")) { Ok(s) => { println!("{}", s); 0 } Err(e) => { eprintln!("error: {}", e); 1 } } }
         "tokens" => { let src = std::fs::read_to_string(&args[2]).unwrap_or_default(); println!("{}", toks::encode_tokens(&src, args.get(3).map(|s| s == "keep").unwrap_or(false))); 0 }
         // rfverif fmt <file> [k=v,k=v]  : formats a file's text in-process and prints the result
         "fmt" => { let src = std::fs::read_to_string(&args[2]).unwrap_or_default(); let mut cfg: Vec<(String, String)> = corpus::header_config(&src); if let Some(extra) = args.get(3) { for kv in extra.split(',') { if let Some((k, v)) = kv.split_once('=') { cfg.push((k.to_string(), v.to_string())); } } } pool::install_panic_hook(); let r = pool::format_here(&pool::Job { src, cfg, file_lines: None }); eprintln!("status={:?} flags={:?} entries={}", r.status, r.flags, r.entries.len()); print!("{}", r.out); 0 }
